@@ -31,7 +31,8 @@ def seq_obs(b):
         for l in b.learners)
 
 
-def seq_case(seed, nops):
+def seq_case(arg):
+    seed, nops = arg
     rng = random.Random(seed)
     nk = rng.choice([1, 2, 3, 3, 4, 5])
     lens = [rng.choice([40, 40, 50, 64, 90]) for _ in range(nk)]
@@ -285,7 +286,7 @@ def run(ctx):
     proof = core.prove(MODULES, leanchecker=ctx.thorough)
     failures = []
     corr = core.Corr("BalancingLearner(SequenceLearner…)~Balancing.lean")
-    cases = core.pmap(lambda a: seq_case(*a), [(ctx.rng.randrange(1 << 30), ctx.n(40, 90)) for _ in range(ctx.n(150, 3000))])
+    cases = core.pmap(seq_case, [(ctx.rng.randrange(1 << 30), ctx.n(40, 90)) for _ in range(ctx.n(150, 3000))])
     for c in cases:
         corr.count("strategy:" + c["meta"]["strategy0"])
         corr.count(f"children:{c['meta']['kids']}")
